@@ -815,3 +815,92 @@ def c02(ck):
     mc = tlc("MC_Cpu", workers=8, coverage=True, timeout=1800)
     ck.add_tlc("MC_Cpu", mc)
     c01_c02(ck, "C02")
+
+
+# ------------------------------------------------------------------- C03
+def norm_trace_line(line):
+    r = json.loads(line)
+    for k in ("jit", "cold", "mode"):
+        r.pop(k, None)
+    return r
+
+
+def compare_traces(ck, files_a, files_b, tag, name_a, name_b):
+    """Record-by-record equality of two recordings of the same scenarios."""
+    n = 0
+    for a, b in zip(files_a, files_b):
+        with open(a) as fa, open(b) as fb:
+            cur = None
+            done = set()
+            for x, y in zip(fa, fb):
+                if '"ev":"init"' in x:
+                    cur = json.loads(x)["id"]
+                    continue
+                if cur in done:
+                    continue
+                rx, ry = norm_trace_line(x), norm_trace_line(y)
+                if rx != ry:
+                    done.add(cur)
+                    n += 1
+                    ck.mismatch({"kind": "modes-differ", "tag": tag, "scenario": cur, name_a: rx, name_b: ry, "traces": [a, b]},
+                                "differ-%s-%s-%s" % (tag, name_a, name_b))
+    return n
+
+
+@prop("C03")
+def c03(ck):
+    import gbprog
+    thorough = ck.tier == "thorough"
+    ck.rule = ("every history of length <= L (4 quick, 6 thorough) of the CodeCache model over bank-register writes and block "
+               "executions, generated by TLC and materialised on MBC1 and MBC3 ROMs whose banks hold different code at the "
+               "same addresses; run with a warm cache, with the cache emptied before every block, and by the interpreter; "
+               "every run validated against Machine.tla, the three compared record by record, and the cache-level events of "
+               "the jit runs validated against CodeCache.tla (Transparent after every event); a history is a case")
+    mc = tlc("MC_CodeCache", workers=4, coverage=True, timeout=1800)
+    ck.add_tlc("MC_CodeCache", mc)
+    ck.require_coverage(mc, ["WriteBank", "RunWith"])
+    # the model must still be able to tell the difference: with the tag never synchronised TLC has to find the stale hit
+    bug = tlc("MC_CodeCache", cfg="MC_CodeCache_bug", workers=2, check=False, timeout=600)
+    if "Invariant" not in bug.text or "is violated" not in bug.text:
+        raise ToolError("vacuity: MC_CodeCache_bug produced no counterexample")
+    ck.tlc_runs.append({"module": "MC_CodeCache_bug", "counterexample": True})
+    files = gen_sharded(ck, "Gen_CacheHist", "cachehist", 4, extra_env={"MAXLEN": 6 if thorough else 4})
+    hists = []
+    for f in files:
+        hists += vlib.read_ndjson(f)
+    hists.sort(key=lambda h: h["id"])
+    ck.sample(hists[700])
+    for cart in ((1, 2, 0), (0x11, 2, 0)):
+        tag = "mbc%d" % (1 if cart[0] == 1 else 3)
+        scs = [gbprog.cache_history_scenario(h["id"], h["steps"], cart, bankreg=0x2000 if h["id"] % 2 == 0 else 0x3FFF) for h in hists]
+        warm = record_and_validate_machine(ck, scs, "c03w" + tag, jit=True, shards=8)
+        cold = record_and_validate_machine(ck, scs, "c03c" + tag, jit=True, shards=8, cold=True)
+        intp = record_and_validate_machine(ck, scs, "c03i" + tag, jit=False, shards=8)
+        compare_traces(ck, warm, cold, tag, "warm", "cold")
+        compare_traces(ck, warm, intp, tag, "warm", "interp")
+        for name, fl in (("warm", warm), ("cold", cold)):
+            evf = []
+            for i, tp in enumerate(fl):
+                ev = gbprog.cache_events(open(tp).read().splitlines())
+                p = os.path.join(rundir(), "c03ev_%s_%s_%d.ndjson" % (tag, name, i))
+                vlib.write_ndjson(p, ev)
+                evf.append(p)
+            validate_traces(ck, evf, "Trace_CodeCache", "cache-events-%s-%s" % (tag, name), True)
+    # block shapes the translator does not handle (model: WithStraddle / WithSelfSwitch): known findings
+    shapes = tlc("MC_CodeCache", cfg="MC_CodeCache_shapes", workers=2, check=False, timeout=600)
+    ck.tlc_runs.append({"module": "MC_CodeCache_shapes", "counterexample": "is violated" in shapes.text})
+    for shape, sc in gbprog.cache_shape_scenarios():
+        fj = record_and_validate_machine(ck, [sc], "c03shape", jit=True, shards=1, validate=False)
+        fi = record_and_validate_machine(ck, [sc], "c03shapei", jit=False, shards=1, validate=False)
+        la = [norm_trace_line(x) for x in open(fj[0])]
+        lb = [norm_trace_line(x) for x in open(fi[0])]
+        if la != lb:
+            first = next((i for i, (x, y) in enumerate(zip(la, lb)) if x != y), min(len(la), len(lb)))
+            ck.mismatch({"kind": "shape", "shape": shape, "cart": sc["cart"], "step": first,
+                         "jit": la[first] if first < len(la) else None, "interp": lb[first] if first < len(lb) else None,
+                         "scenario": sc}, "shape-" + shape)
+    if thorough:
+        recs = gbv(["cache-pressure", "--banks", 127, "--steps", 720000, "--capture", os.path.join(rundir(), "cp.stdout")], jit=True, timeout=3600)
+        for r in recs:
+            if r.get("kind") == "crash" or (r.get("kind") == "finished" and r.get("stdout_bytes", 0) > 0):
+                ck.mismatch(dict(r, family="cache-pressure"), "cache-pressure")
